@@ -330,7 +330,9 @@ PeekVal      == IF CanPopVal THEN UsedAt(lastUsed % N).id % 65536 ELSE -1
 AvailDescVal == IF cfg.indirect THEN (IF FreeCount = 0 THEN 0 ELSE N) ELSE FreeCount
 
 \* C05, driver -> device direction
-MustNotify == IF cfg.eventIdx THEN NeedEvent(availEvent, availIdx, lastChecked)
+\* (the property quantifies over batches of at most the queue size between two checks)
+MustNotify == IF cfg.eventIdx THEN /\ NeedEvent(availEvent, availIdx, lastChecked)
+                                   /\ Sub(availIdx, lastChecked) <= N
               ELSE usedFlags % 2 = 0
 ShouldNotifyOk(r) == /\ MustNotify => r
                      /\ (~cfg.eventIdx /\ usedFlags % 2 = 1) => ~r
